@@ -129,6 +129,10 @@ def run_real(c, ctx):
         rep = [crop.batchsize, crop.num_batches, crop.num_sown_batches]
         crop2 = xyz.Crop(name='t', parent_dir=d)
         rep2 = [crop2.batchsize, crop2.num_batches, crop2.num_sown_batches]
+        # ... and by a handle that repeats the original request (which may differ from what was actually sown)
+        rq = ({'batchsize': c['bs']} if 'bs' in c else {}) | ({'num_batches': c['nb']} if 'nb' in c else {})
+        crop3 = xyz.Crop(name='t', parent_dir=d, **rq)
+        rep3 = [crop3.batchsize, crop3.num_batches, crop3.num_sown_batches, sorted(crop3.missing_results())]
         # direct run with a recording function: the kwargs a direct run passes
         log = []
 
@@ -152,7 +156,7 @@ def run_real(c, ctx):
         extra = {**inp['res'], **inp['consts'], **inp['sow_consts']}
         index = {common.kwkey({**e, **extra}): i for i, e in enumerate(enum)}
         bidx = [[index.get(common.kwkey(kw), -1) for kw in b] for b in batches]
-        return {'ids': ids, 'batches': bidx, 'reported': rep, 'reloaded': rep2,
+        return {'ids': ids, 'batches': bidx, 'reported': rep, 'reloaded': rep2, 'reloaded_with_request': rep3,
                 'direct': sorted(map(str, map(common.kwkey, log))),
                 'sown': sorted(str(common.kwkey(kw)) for b in batches for kw in b)}
     finally:
@@ -202,6 +206,10 @@ def oracle(c, obs):
     if obs['reported'][1] != B or obs['reported'][2] != B: return f'crop reports {obs["reported"]} but {B} files exist'
     if 'bs' in c and obs['reported'][0] != c['bs']: return f'crop reports batchsize {obs["reported"][0]}'
     if obs['reloaded'] != obs['reported']: return f'reloaded crop reports {obs["reloaded"]} vs {obs["reported"]}'
+    if obs['reloaded_with_request'][:3] != obs['reported']:
+        return f'a crop reloaded with the original request reports {obs["reloaded_with_request"][:3]} vs {obs["reported"]}'
+    if obs['reloaded_with_request'][3] != list(range(1, B + 1)):
+        return f'a crop reloaded with the original request lists missing batches {obs["reloaded_with_request"][3]}, sown are 1..{B}'
     return None
 
 
